@@ -298,3 +298,28 @@ pub fn sfs_fsize(ctx: &Ctx, args: &[&str], stdin: &[u8], limit: Option<u64>, out
     let _ = std::fs::remove_file(out_path);
     (Run { code: out.status.code(), stdout: out.stdout, stderr: String::from_utf8_lossy(&out.stderr).into_owned() }, written)
 }
+
+/// Run with stdout connected to a sink that is already dead: a pipe whose reading end is closed (every write fails with
+/// EPIPE; SIGPIPE is ignored by the Rust runtime) or /dev/full (every write fails with ENOSPC).
+pub fn sfs_dead_stdout(ctx: &Ctx, args: &[&str], stdin: &[u8], kind: &str) -> Run {
+    use std::os::fd::{FromRawFd, OwnedFd};
+    let mut cmd = Command::new(&ctx.sfs_bin);
+    cmd.args(args).env("SFS_ALLOW_STDIN", "1").env_remove("RUST_BACKTRACE").env_remove("RUST_LOG")
+        .stderr(Stdio::piped()).stdin(Stdio::piped());
+    if kind == "epipe" {
+        let mut fds = [0i32; 2];
+        unsafe {
+            libc::pipe2(fds.as_mut_ptr(), libc::O_CLOEXEC);
+            libc::close(fds[0]);
+            cmd.stdout(Stdio::from(OwnedFd::from_raw_fd(fds[1])));
+        }
+    } else {
+        cmd.stdout(std::fs::OpenOptions::new().write(true).open("/dev/full").expect("open /dev/full"));
+    }
+    let mut child = cmd.spawn().unwrap_or_else(|e| panic!("cannot run {}: {e}", ctx.sfs_bin));
+    let mut si = child.stdin.take().unwrap();
+    let bytes = stdin.to_vec();
+    std::thread::spawn(move || { let _ = si.write_all(&bytes); });
+    let out = child.wait_with_output().expect("wait");
+    Run { code: out.status.code(), stdout: Vec::new(), stderr: String::from_utf8_lossy(&out.stderr).into_owned() }
+}
